@@ -3,6 +3,7 @@ package main
 import (
 	"fmt"
 	"go/types"
+	"os"
 	"strings"
 
 	"golang.org/x/tools/go/ssa"
@@ -172,9 +173,15 @@ func (e *Engine) runVC(vc *VC, fn *ssa.Function, fc *FuncContract, splitVals []i
 	}
 	vc.cover("cover-entry", "preconditions of "+fc.Key+" are satisfiable", "true")
 
+	if traceOn {
+		fmt.Fprintln(os.Stderr, "runVC: building graph of", fn.String())
+	}
 	g, err := buildGraph(fn, fc.Loops)
 	if err != nil {
 		return err
+	}
+	if traceOn {
+		fmt.Fprintln(os.Stderr, "runVC: graph built,", len(g.Order), "nodes")
 	}
 	f := &Frame{vc: vc, fn: fn, g: g, fc: fc, params: params,
 		vals: map[ssa.Value]map[string]*SV{}, memo: map[ssa.Value]map[*Node]*SV{}, path: fn.Name()}
